@@ -444,7 +444,6 @@ func c18R1(c *kit.Ctx, m *mbModel) {
 	}
 }
 
-
 func trunc(s string, n int) string {
 	if len(s) > n {
 		return s[:n-1] + "…"
